@@ -441,10 +441,11 @@ def mutable_option_family(ctx: Ctx, n: int):
     for _ in range(n):
         k = rng.random()
         ref = (nth_from_end_nfa(rng) if k < 0.08 else junk_row_nfa(rng) if k < 0.16 else empty_alphabet_nfa(rng) if k < 0.2
-               else gen.rand_nfa(rng, 5))
+               else M.pooled_nfa(rng, rng.choice(gen.ALPHABETS[:3]), 5, gen.name_pool(rng, 5) if rng.random() < 0.3 else None)
+               if k < 0.45 else gen.rand_nfa(rng, 5))
         if len(ref.states) > 6:
             continue
-        mode = rng.choice(M.MODES)
+        mode = M.pick_mode(rng)
         run_mutable_sequence(ctx, ref, mode, _random_steps(rng, ref, rng.randint(3, 6)), "mutable_option")
     live_dfa_family(ctx, max(n // 4, 1))
 
